@@ -100,6 +100,38 @@ def _initfiles_by_evaluation(ctx, rep, dirbase, pi) -> bool:
         if ("/SB/" + n, n) not in asked:
             problems.append(f"the filter is not asked about ('/SB/{n}', {n!r}) (it was asked {[a for a in asked if a[1] == n] or 'nothing'})")
             break
+    # second scenario: the filter fails with OSError for one name (an overriding filter reads link files).  Whether that failure is
+    # contained is C12's question; here: *if* the listing goes on, the names after the failing one are still in it
+    from ..paths import AVal as _AV
+
+    def cv2(call, target, st):
+        f = call.func
+        if isinstance(f, ast.Attribute) and f.attr == "prep_initfiles_canaddfile":
+            a = holder2["w"].cur_args or []
+            nm = a[2].value if len(a) >= 3 and a[2].kind == "const" else None
+            if nm == "b.txt":
+                return _AV("raise", "OSError")
+        return cv(call, target, st)
+
+    holder2 = {}
+    w2 = _W(prog, ctx.resolver, call_value=cv2, exact_loops=True, unroll=len(names) + 3, assumptions={"self.selectorbase": _C("/SB")}, sticky={"self.selectorbase"},
+            inline=lambda fn, t, d: d < 3 and t.bound_cls is not None and fn.name not in ("prep_initfiles_canaddfile", "getselector"))
+    holder2["w"] = holder["w"] = w2
+    try:
+        paths2 = w2.run(pi, dirbase, facts={"self.selectorbase": _C("/SB")})
+    except Exception:
+        paths2 = []
+    for p in paths2:
+        if p.kind == "raise":
+            continue
+        files = p.state.facts.get("self.files")
+        if files is None or files.kind != "const" or not isinstance(files.value, (list, tuple)):
+            continue
+        lost = [n for n in want if n != "b.txt" and n not in files.value]
+        if lost:
+            problems.append(f"when the filter fails with OSError for 'b.txt' the scan goes on without {lost!r}: one unreadable name takes the names "
+                            "after it out of the listing")
+            break
     rep.add("R07f", f"{pi.qualname}: append iff accepted, once", not problems, ctx.where(pi), "; ".join(problems[:3]), key="R07f|prep_initfiles")
     return True
 
